@@ -151,35 +151,112 @@ func runSolver(ctx context.Context, cfg SolverCfg, query string, timeout time.Du
 	return res
 }
 
-// portfolio runs the configurations concurrently; the first definite answer wins.
-func portfolio(cfgs []SolverCfg, query string, timeout time.Duration) SolveResult {
+type attempt struct {
+	cfg      SolverCfg
+	query    string
+	label    string // encoding used
+	satExact bool   // a sat answer of this attempt is a genuine model (not an over-approximation)
+	side     string // optional second query (no-wrap side conditions) that must also be unsat
+}
+
+var sideCache = map[string]SolveResult{}
+var sideMu sync.Mutex
+
+// solveSide decides a side-condition query once (cached by text) with a small portfolio.
+func solveSide(ctx context.Context, q string, timeout time.Duration) SolveResult {
+	sideMu.Lock()
+	if r, ok := sideCache[q]; ok {
+		sideMu.Unlock()
+		return r
+	}
+	sideMu.Unlock()
+	cfgs := []SolverCfg{z3new, cvc5c, z3seed(7)}
+	ch := make(chan SolveResult, len(cfgs))
+	cctx, cancel := context.WithCancel(ctx)
+	defer cancel()
+	for _, c := range cfgs {
+		go func(c SolverCfg) { ch <- runSolver(cctx, c, q, timeout) }(c)
+	}
+	res := SolveResult{Verdict: "unknown"}
+	for range cfgs {
+		r := <-ch
+		if r.Verdict == "unsat" || r.Verdict == "sat" {
+			res = r
+			break
+		}
+		if res.Verdict == "unknown" {
+			res = r
+		}
+	}
+	sideMu.Lock()
+	sideCache[q] = res
+	sideMu.Unlock()
+	return res
+}
+
+// portfolio runs the attempts concurrently; the first definite answer wins
+// (unsat from any attempt; sat only from an exact encoding).
+func portfolioAttempts(as []attempt, timeout time.Duration) SolveResult {
 	ctx, cancel := context.WithCancel(context.Background())
 	defer cancel()
-	ch := make(chan SolveResult, len(cfgs))
-	for _, c := range cfgs {
-		go func(c SolverCfg) { ch <- runSolver(ctx, c, query, timeout) }(c)
+	type res struct {
+		r SolveResult
+		a attempt
+	}
+	ch := make(chan res, len(as))
+	for _, a := range as {
+		go func(a attempt) { ch <- res{runSolver(ctx, a.cfg, a.query, timeout), a} }(a)
 	}
 	var last SolveResult
 	last.Verdict = "unknown"
 	var errs []string
 	tot := 0.0
-	for range cfgs {
-		r := <-ch
+	for range as {
+		x := <-ch
+		r := x.r
 		tot += r.Time
-		if r.Verdict == "sat" || r.Verdict == "unsat" {
+		r.Solver = r.Solver + " [" + x.a.label + "]"
+		if r.Verdict == "unsat" && x.a.side != "" {
+			sr := solveSide(ctx, x.a.side, timeout)
+			tot += sr.Time
+			if sr.Verdict != "unsat" {
+				r.Verdict = "unknown"
+				r.Raw = "main query unsat but no-wrap side conditions " + sr.Verdict + " (" + sr.Solver + ")"
+			} else {
+				r.Solver += " + side conditions " + sr.Solver
+			}
+		}
+		if r.Verdict == "unsat" || (r.Verdict == "sat" && x.a.satExact) {
 			r.Time = tot
 			return r
+		}
+		if r.Verdict == "sat" {
+			r.Verdict = "unknown"
+			r.Raw = "candidate model from an over-approximating encoding (" + x.a.label + ")"
 		}
 		if r.Verdict == "error" {
 			errs = append(errs, r.Solver+": "+firstLines(r.Raw, 3))
 		}
-		last = r
+		if last.Verdict == "unknown" || r.Verdict != "unknown" {
+			last = r
+		}
 	}
 	last.Time = tot
-	if len(errs) > 0 && last.Verdict != "error" {
-		last.Raw += "\nerrors: " + strings.Join(errs, "; ")
+	if len(errs) > 0 {
+		if last.Verdict == "error" {
+			last.Verdict = "unknown"
+		}
+		last.Raw += " errors: " + strings.Join(errs, "; ")
 	}
 	return last
+}
+
+func portfolio(cfgs []SolverCfg, query string, timeout time.Duration) SolveResult {
+	var as []attempt
+	for _, c := range cfgs {
+		as = append(as, attempt{cfg: c, query: query, label: "direct", satExact: true})
+	}
+	return portfolioAttempts(as, timeout)
 }
 
 func firstLines(s string, n int) string {
